@@ -190,7 +190,7 @@ func (r *Runner) target(tag int) godi.Provider {
 	if tag == 0 {
 		return r.P
 	}
-	return r.Scopes[tag].S
+	return r.ScopeRecOf(tag).S
 }
 
 // Resolve resolves an identity on the scope with the given tag.
@@ -239,7 +239,7 @@ func (r *Runner) Resolve(tag int, id Ident) *Obs {
 
 // CloseScope closes the scope explicitly.
 func (r *Runner) CloseScope(tag int) *Obs {
-	rec := r.Scopes[tag]
+	rec := r.ScopeRecOf(tag)
 	o := &Obs{Kind: "close", Scope: tag, StartSeq: r.W.NextSeq()}
 	r.mu.Lock()
 	if rec.CloseBeg == 0 {
@@ -261,7 +261,7 @@ func (r *Runner) CloseScope(tag int) *Obs {
 
 // CancelScope cancels the user context the scope was created with.
 func (r *Runner) CancelScope(tag int) *Obs {
-	rec := r.Scopes[tag]
+	rec := r.ScopeRecOf(tag)
 	o := &Obs{Kind: "cancel", Scope: tag, StartSeq: r.W.NextSeq()}
 	r.mu.Lock()
 	if rec.CloseBeg == 0 {
@@ -352,4 +352,11 @@ func (r *Runner) Tags() []int {
 	}
 	sort.Ints(out)
 	return out
+}
+
+// ScopeRecOf returns the record of a scope tag (nil if unknown); safe for concurrent use.
+func (r *Runner) ScopeRecOf(tag int) *ScopeRec {
+	r.mu.Lock()
+	defer r.mu.Unlock()
+	return r.Scopes[tag]
 }
